@@ -739,6 +739,49 @@ class Comm:
             return None
         self._coll('Allgatherv', (), (s, r), complete)
 
+    def Alltoallv(self, sendbuf, recvbuf):
+        n = len(self._members)
+        s = parse_buf(sendbuf, vector=True)
+        r = parse_buf(recvbuf, writable=True, vector=True)
+        for b in (s, r):
+            if b.counts is None:
+                if b.count % n:
+                    raise ValueError('message: buffer count is not a multiple of the communicator size')
+                c = b.count // n
+                b.counts = [c] * n
+                b.displs = [c * i for i in range(n)]
+            if len(b.counts) != n:
+                raise ValueError('message: expecting %d counts, got %d' % (n, len(b.counts)))
+        cid = self._cid
+
+        def complete(p):
+            for i in range(n):
+                si = p[i][0]
+                if _overlap(si, p[i][1]):
+                    raise Violation('buffer-alias', dict(op='Alltoallv', rank=i))
+                for j in range(n):
+                    rj = p[j][1]
+                    if si.counts[j] * si.dt.size != rj.counts[i] * rj.dt.size or si.dt.name != rj.dt.name:
+                        raise Violation('buffer-mismatch', dict(
+                            op='Alltoallv', context=cid, sender=i, receiver=j,
+                            sent=(si.dt.name, si.counts[j]), expected=(rj.dt.name, rj.counts[i])))
+                    lo = si.displs[j] * si.dt.size
+                    if lo < 0 or lo + si.counts[j] * si.dt.size > si.bytes.size:
+                        raise Violation('buffer-overrun', dict(op='Alltoallv', rank=i, side='send'))
+                    lo = rj.displs[i] * rj.dt.size
+                    if lo < 0 or lo + rj.counts[i] * rj.dt.size > rj.bytes.size:
+                        raise Violation('buffer-overrun', dict(op='Alltoallv', rank=j, side='recv'))
+            for j in range(n):
+                rj = p[j][1]
+                e = rj.dt.size
+                for i in range(n):
+                    si = p[i][0]
+                    nb = si.counts[j] * si.dt.size
+                    rj.bytes[rj.displs[i] * e:rj.displs[i] * e + nb] = \
+                        si.bytes[si.displs[j] * si.dt.size:si.displs[j] * si.dt.size + nb]
+            return None
+        self._coll('Alltoallv', (), (s, r), complete)
+
     def Gather(self, sendbuf, recvbuf, root=0):
         root = self._check_root(root)
         n = len(self._members)
